@@ -129,7 +129,7 @@ func kubeOracle(c *kubeCase, o *kubeObs) []hx.Violation {
 				for _, f := range sortedKeys(b) {
 					_, inOld := old[f]
 					_, inNew := t.Fields[f]
-					if !inOld && !inNew && after[t.Key()][f] != b[f] {
+					if !inOld && !inNew && !mapDropped(f, old, t.Fields) && after[t.Key()][f] != b[f] {
 						add("C02:kube-update-foreign-field-changed", fmt.Sprintf("%s: field %s=%q named by neither manifest became %q", t.Key(), f, b[f], after[t.Key()][f]))
 					}
 				}
@@ -241,7 +241,7 @@ func histOracle(h *eng.History, o *eng.Obs) []hx.Violation {
 							}
 						}
 						for _, f := range sortedKeys(b) {
-							if !named[f] && after[r.Key()][f] != b[f] {
+							if !named[f] && !mapDropped(f, named2fields(named), stampedNames(r.Fields)) && after[r.Key()][f] != b[f] {
 								add("C02:foreign-field-changed", fmt.Sprintf("step %d: %s changed field %s of %s from %q to %q; no manifest of the release names it",
 									i, op.Kind, f, r.Key(), b[f], after[r.Key()][f]))
 							}
@@ -256,8 +256,13 @@ func histOracle(h *eng.History, o *eng.Obs) []hx.Violation {
 						}
 						if _, still := after[r.Key()]; still && !liveKeep(before[r.Key()]) {
 							sig := "C02:removed-resource-not-deleted"
-							if op.Kind == "install" {
-								sig = "C02:install-replace-over-deployed-leaves-resources"
+							switch last := lastRow(prevLed); {
+							case op.Kind == "install":
+								sig = "C02:install-replace-over-deployed-leaves-resources" // K1-C02
+							case op.Kind == "rollback" && last != nil && last.Rev != pd.Rev && last.Status == "failed" && !keySet(last.Manifest)[r.Key()]:
+								// rollback diffs against the latest revision even when that one failed and was never
+								// applied; what only the deployed revision has is then never looked at (K6-C02)
+								sig = "C02:rollback-over-failed-revision-leaves-deployed-resources"
 							}
 							add(sig, fmt.Sprintf("step %d: %s succeeded; %s was in the previously deployed revision %d, is not in revision %d, has no live keep policy, and still exists",
 								i, op.Kind, r.Key(), pd.Rev, newRow.Rev))
@@ -308,4 +313,42 @@ func keptLines(info string) []string {
 	}
 	sort.Strings(listed)
 	return listed
+}
+
+// mapDropped: the new manifest names no entry of the map (data / labels / annotations) that
+// field f lives in although the old one did.  The patch then says "<map>: null" and the whole
+// map goes, foreign entries included: by design of the merge, and outside the modelled domain.
+func mapDropped(f string, old, new map[string]string) bool {
+	if len(f) < 2 {
+		return false
+	}
+	g := f[:2]
+	for k := range new {
+		if strings.HasPrefix(k, g) {
+			return false
+		}
+	}
+	for k := range old {
+		if strings.HasPrefix(k, g) {
+			return true
+		}
+	}
+	return false
+}
+
+func named2fields(named map[string]bool) map[string]string {
+	m := map[string]string{}
+	for k := range named {
+		m[k] = ""
+	}
+	return m
+}
+
+// stampedNames: the field names of a manifest entry as Helm sends it (ownership metadata added)
+func stampedNames(f map[string]string) map[string]string {
+	m := map[string]string{"l:app.kubernetes.io/managed-by": "", "a:meta.helm.sh/release-name": "", "a:meta.helm.sh/release-namespace": ""}
+	for k := range f {
+		m[k] = ""
+	}
+	return m
 }
